@@ -1,8 +1,429 @@
-From Coq Require Import List ZArith Bool Lia.
-From V Require Import lib.Verdict lib.C11_DagPb model.M_C14.
+(** C14 — applying Diff(a, b) to a gives b (Diff with the Data comparison, i.e. defect
+    switch off; and the current code whenever it never recurses into two nodes
+    with different Data); Diff(a, a) = []; refutation for the current code. *)
+From Coq Require Import List ZArith Bool Lia Sorted.
+From V Require Import lib.Verdict lib.C11_DagPb model.M_C14 proofs.P_C11_sort proofs.P_C14_map.
 Import ListNotations.
 Open Scope Z_scope.
 
+(** ---------- top-level names for the local fixpoints of the model ---------- *)
+Fixpoint commons (fl : bool) (kb l : list (name * tree)) : list change :=
+  match l with
+  | [] => []
+  | (n, ca) :: r =>
+      match get n kb with
+      | None => commons fl kb r
+      | Some cb => (if tree_eqb ca cb then [] else map (prefix n) (diff fl ca cb)) ++ commons fl kb r
+      end
+  end.
+
+Lemma diff_PB : forall fl da ka db kb,
+  diff fl (PB da ka) (PB db kb) =
+  if tree_eqb (PB da ka) (PB db kb) then [] else
+  if (is_nil ka && is_nil kb) || (negb fl && negb (da =? db)) then [mod_change (PB da ka) (PB db kb)]
+  else commons fl kb ka ++ removes ka kb ++ adds ka kb.
+Proof. reflexivity. Qed.
+
+Fixpoint compat_all (kb l : list (name * tree)) : bool :=
+  match l with
+  | [] => true
+  | (n, ca) :: r =>
+      match get n kb with
+      | None => compat_all kb r
+      | Some cb => compat ca cb && compat_all kb r
+      end
+  end.
+
+Lemma compat_PB : forall da ka db kb,
+  compat (PB da ka) (PB db kb) =
+  if tree_eqb (PB da ka) (PB db kb) then true else
+  if is_nil ka && is_nil kb then true else (da =? db) && compat_all kb ka.
+Proof. reflexivity. Qed.
+
+(** ---------- well-formed dag-pb trees ---------- *)
+Inductive wf : tree -> Prop :=
+| wf_PB : forall d k, SS k -> (forall n c, In (n, c) k -> n <> [] /\ wf c) -> wf (PB d k).
+
+Lemma wfb_wf : forall t, wfb t = true -> wf t.
+Proof.
+  induction t as [d | d k IH] using tree_ind2; intro W; [discriminate W|].
+  cbn [wfb] in W. apply andb_true_iff in W as [W1 W2].
+  constructor; [apply names_sorted_SS; exact W1|].
+  clear W1. induction k as [|[m e] r IHr]; intros n c Hin; [destruct Hin|].
+  inversion IH as [|? ? He Hr]; subst. cbn [snd] in He.
+  apply andb_true_iff in W2 as [W2 W3]. apply andb_true_iff in W2 as [Wn We].
+  destruct Hin as [Hin|Hin].
+  - injection Hin as -> ->. split; [|apply He; exact We].
+    intro E. subst. discriminate Wn.
+  - apply (IHr Hr W3). exact Hin.
+Qed.
+
+Lemma wf_get : forall d k n c, wf (PB d k) -> get n k = Some c -> n <> [] /\ wf c.
+Proof.
+  intros d k n c W G. inversion W as [? ? S Hk]; subst. apply Hk. apply get_in. exact G.
+Qed.
+
+Lemma wf_is_pb : forall t, wf t -> exists d k, t = PB d k.
+Proof. intros t W. destruct W. eauto. Qed.
+
+(** ---------- the Editor on paths that go through a child ---------- *)
+Definition deep (cs : list change) : Prop := Forall (fun c => c_path c <> []) cs.
+
+Lemma insert_at_cons : forall d k n p x c, p <> [] -> get n k = Some c ->
+  insert_at (PB d k) (n :: p) x =
+  match insert_at c p x with Some c' => Some (PB d (set n c' k)) | None => None end.
+Proof.
+  intros d k n p x c Hp G. destruct p as [|m p']; [contradiction|].
+  cbn [insert_at]. rewrite G. reflexivity.
+Qed.
+
+Lemma rm_at_cons : forall d k n p c, p <> [] -> get n k = Some c ->
+  rm_at (PB d k) (n :: p) =
+  match rm_at c p with Some c' => Some (PB d (set n c' k)) | None => None end.
+Proof.
+  intros d k n p c Hp G. destruct p as [|m p']; [contradiction|].
+  cbn [rm_at]. rewrite G. reflexivity.
+Qed.
+
+Lemma apply_change_prefix : forall ch c c1 d k n,
+  c_path ch <> [] -> SS k -> get n k = Some c ->
+  apply_change c ch = Some c1 ->
+  apply_change (PB d k) (prefix n ch) = Some (PB d (set n c1 k)).
+Proof.
+  intros ch c c1 d k n Hp S G A. unfold apply_change in *. unfold prefix. cbn [c_type c_path c_after].
+  destruct (c_type ch).
+  - destruct (c_after ch) as [[xd xk|]|]; try discriminate A.
+    rewrite (insert_at_cons d k n _ _ c Hp G), A. reflexivity.
+  - rewrite (rm_at_cons d k n _ c Hp G), A. reflexivity.
+  - rewrite (rm_at_cons d k n _ c Hp G).
+    destruct (rm_at c (c_path ch)) as [c0|]; [|discriminate A].
+    destruct (c_after ch) as [[xd xk|]|]; try discriminate A.
+    rewrite (insert_at_cons d (set n c0 k) n _ _ c0 Hp) by (rewrite get_set, bytes_eqb_refl; reflexivity).
+    rewrite A. rewrite set_set by exact S. reflexivity.
+Qed.
+
+Lemma apply_list_prefix : forall cs c c' d k n,
+  deep cs -> SS k -> get n k = Some c ->
+  apply_list c cs = Some c' ->
+  apply_list (PB d k) (map (prefix n) cs) = Some (PB d (set n c' k)).
+Proof.
+  induction cs as [|ch cs IH]; intros c c' d k n D S G A.
+  - cbn [apply_list map] in *. injection A as <-. rewrite set_same by assumption. reflexivity.
+  - inversion D as [|? ? Hp D']; subst. cbn [apply_list map] in *.
+    destruct (apply_change c ch) as [c1|] eqn:A1; [|discriminate A].
+    rewrite (apply_change_prefix ch c c1 d k n Hp S G A1).
+    rewrite (IH c1 c' d (set n c1 k) n D' (SS_set _ _ _ S)).
+    + rewrite set_set by exact S. reflexivity.
+    + rewrite get_set, bytes_eqb_refl. reflexivity.
+    + exact A.
+Qed.
+
+Lemma apply_list_app : forall l1 l2 t,
+  apply_list t (l1 ++ l2) =
+  match apply_list t l1 with Some t' => apply_list t' l2 | None => None end.
+Proof.
+  induction l1 as [|c l1 IH]; intros l2 t; [reflexivity|].
+  cbn [app apply_list]. destruct (apply_change t c); [apply IH| reflexivity].
+Qed.
+
+(** ---------- shape of a non-empty diff ---------- *)
+Lemma deep_commons : forall fl kb l, deep (commons fl kb l).
+Proof.
+  intros fl kb l. induction l as [|[n ca] r IH]; [constructor|].
+  cbn [commons]. destruct (get n kb) as [cb|]; [|exact IH].
+  apply Forall_app. split; [|exact IH].
+  destruct (tree_eqb ca cb); [constructor|].
+  apply Forall_forall. intros c Hc. apply in_map_iff in Hc as (c0 & <- & _). discriminate.
+Qed.
+
+Lemma deep_removes : forall ka kb, deep (removes ka kb).
+Proof.
+  intros. unfold removes. apply Forall_forall. intros c Hc.
+  apply in_map_iff in Hc as (nc & <- & _). discriminate.
+Qed.
+Lemma deep_adds : forall ka kb, deep (adds ka kb).
+Proof.
+  intros. unfold adds. apply Forall_forall. intros c Hc.
+  apply in_map_iff in Hc as (nc & <- & _). discriminate.
+Qed.
+
+Lemma diff_cases : forall fl a b, tree_eqb a b = false ->
+  diff fl a b = [mod_change a b] \/
+  (exists da ka db kb, a = PB da ka /\ b = PB db kb /\ (fl = false -> da = db) /\
+     diff fl a b = commons fl kb ka ++ removes ka kb ++ adds ka kb /\ deep (diff fl a b)).
+Proof.
+  intros fl a b E. destruct a as [da ka|da]; destruct b as [db kb|db].
+  - rewrite diff_PB, E.
+    destruct ((is_nil ka && is_nil kb) || (negb fl && negb (da =? db))) eqn:C; [left; reflexivity|].
+    right. exists da, ka, db, kb. repeat split; try reflexivity.
+    + intros ->. apply orb_false_iff in C as [_ C]. cbn [negb andb] in C.
+      apply negb_false_iff in C. apply Z.eqb_eq in C. exact C.
+    + apply Forall_app. split; [apply deep_commons|].
+      apply Forall_app. split; [apply deep_removes| apply deep_adds].
+  - left. cbn [diff]. rewrite E. reflexivity.
+  - left. cbn [diff]. rewrite E. reflexivity.
+  - left. cbn [diff]. rewrite E. reflexivity.
+Qed.
+
+(** ---------- folds that describe what the three groups of changes do ---------- *)
+Definition upd (kb l kc : list (name * tree)) : list (name * tree) :=
+  fold_left (fun k nc => match get (fst nc) kb with Some cb => set (fst nc) cb k | None => k end) l kc.
+Definition fold_del (l k : list (name * tree)) : list (name * tree) :=
+  fold_left (fun k nc => del (fst nc) k) l k.
+Definition fold_set (l k : list (name * tree)) : list (name * tree) :=
+  fold_left (fun k nc => set (fst nc) (snd nc) k) l k.
+
+Lemma get_upd : forall kb m l kc,
+  get m (upd kb l kc) = if is_some (get m l) && is_some (get m kb) then get m kb else get m kc.
+Proof.
+  intros kb m l. induction l as [|[n ca] r IH]; intro kc; [reflexivity|].
+  unfold upd in *. cbn [fold_left fst get]. rewrite IH.
+  destruct (bytes_eqb n m) eqn:E.
+  - apply bytes_eqb_eq in E. subst. cbn [is_some andb].
+    destruct (get m kb) as [cb|] eqn:Gb.
+    + cbn [is_some]. rewrite andb_true_r, get_set, bytes_eqb_refl.
+      destruct (is_some (get m r)); reflexivity.
+    + cbn [is_some]. rewrite andb_false_r. reflexivity.
+  - destruct (get n kb) as [cb|]; [|reflexivity].
+    rewrite get_set, E. reflexivity.
+Qed.
+
+Lemma get_fold_del : forall m l k,
+  get m (fold_del l k) = if is_some (get m l) then None else get m k.
+Proof.
+  intros m l. induction l as [|[n c] r IH]; intro k; [reflexivity|].
+  unfold fold_del in *. cbn [fold_left fst get]. rewrite IH, get_del.
+  destruct (bytes_eqb n m); [|reflexivity]. cbn [is_some]. destruct (is_some (get m r)); reflexivity.
+Qed.
+
+Lemma get_fold_set : forall m l k, SS l ->
+  get m (fold_set l k) = match get m l with Some c => Some c | None => get m k end.
+Proof.
+  intros m l. induction l as [|[n c] r IH]; intros k S; [reflexivity|].
+  inversion S as [|? ? Sr F]; subst.
+  unfold fold_set in *. cbn [fold_left fst snd get]. rewrite (IH _ Sr), get_set.
+  destruct (bytes_eqb n m) eqn:E; [|reflexivity].
+  apply bytes_eqb_eq in E. subst. rewrite (get_head_none m c r F). reflexivity.
+Qed.
+
+Lemma SS_upd : forall kb l kc, SS kc -> SS (upd kb l kc).
+Proof.
+  intros kb l. induction l as [|[n ca] r IH]; intros kc S; [exact S|].
+  unfold upd in *. cbn [fold_left fst]. apply IH. destruct (get n kb); [apply SS_set|]; exact S.
+Qed.
+Lemma SS_fold_del : forall l k, SS k -> SS (fold_del l k).
+Proof.
+  induction l as [|[n c] r IH]; intros k S; [exact S|].
+  unfold fold_del in *. cbn [fold_left fst]. apply IH. apply SS_del. exact S.
+Qed.
+Lemma SS_fold_set : forall l k, SS k -> SS (fold_set l k).
+Proof.
+  induction l as [|[n c] r IH]; intros k S; [exact S|].
+  unfold fold_set in *. cbn [fold_left fst snd]. apply IH. apply SS_set. exact S.
+Qed.
+
+Lemma get_filter_names : forall (f : name -> bool) m k,
+  get m (filter (fun nc => f (fst nc)) k) = if f m then get m k else None.
+Proof.
+  intros f m k. induction k as [|[n c] r IH]; [destruct (f m); reflexivity|].
+  cbn [filter fst get]. destruct (bytes_eqb n m) eqn:E.
+  - apply bytes_eqb_eq in E. subst. destruct (f m) eqn:Fm; cbn [get].
+    + rewrite bytes_eqb_refl. reflexivity.
+    + rewrite IH, Fm. reflexivity.
+  - destruct (f n); cbn [get]; rewrite ?E; exact IH.
+Qed.
+
+Lemma SS_filter : forall (p : name * tree -> bool) k, SS k -> SS (filter p k).
+Proof.
+  intros p k S. induction S as [|x r Sr IH F]; cbn [filter]; [constructor|].
+  destruct (p x); [|exact IH]. constructor; [exact IH|].
+  rewrite Forall_forall in *. intros y Hy. apply filter_In in Hy as [Hy _]. apply F. exact Hy.
+Qed.
+
+(** ---------- what applying each group does ---------- *)
+Lemma removes_apply : forall d l k, SS l ->
+  (forall n c, In (n, c) l -> get n k <> None) ->
+  apply_list (PB d k) (map (fun nc => mkChange CRemove [fst nc] (Some (snd nc)) None) l) =
+  Some (PB d (fold_del l k)).
+Proof.
+  intros d l. induction l as [|[n c] r IH]; intros k S Hin; [reflexivity|].
+  inversion S as [|? ? Sr F]; subst.
+  cbn [map apply_list fst snd]. unfold apply_change. cbn [c_type c_path rm_at].
+  destruct (get n k) as [x|] eqn:G; [|exfalso; apply (Hin n c); [left; reflexivity| exact G]].
+  unfold fold_del. cbn [fold_left fst]. apply (IH (del n k) Sr).
+  intros m e Hm. rewrite get_del.
+  destruct (bytes_eqb n m) eqn:E.
+  - apply bytes_eqb_eq in E. subst. rewrite Forall_forall in F. specialize (F _ Hm).
+    unfold nlt in F. cbn [fst] in F. rewrite bytes_ltb_irrefl in F. discriminate.
+  - apply (Hin m e). right. exact Hm.
+Qed.
+
+Lemma adds_apply : forall d l k,
+  (forall n c, In (n, c) l -> n <> [] /\ wf c) ->
+  apply_list (PB d k) (map (fun nc => mkChange CAdd [fst nc] None (Some (snd nc))) l) =
+  Some (PB d (fold_set l k)).
+Proof.
+  intros d l. induction l as [|[n c] r IH]; intros k Hin; [reflexivity|].
+  destruct (Hin n c (or_introl eq_refl)) as [Hn Wc].
+  destruct (wf_is_pb c Wc) as (cd & ck & ->).
+  cbn [map apply_list fst snd]. unfold apply_change. cbn [c_type c_path c_after insert_at].
+  destruct n as [|n0 n']; [contradiction|].
+  unfold fold_set. cbn [fold_left fst snd]. apply IH.
+  intros m e Hm. apply Hin. right. exact Hm.
+Qed.
+
+Section Commons.
+(** induction hypothesis of the main theorem, for the children in [l] *)
+Variable fl : bool.
+Variable kb : list (name * tree).
+Variable d : Z.
+
+Lemma commons_apply : forall l kc,
+  SS l -> SS kc ->
+  (forall n cb, get n kb = Some cb -> wf cb) ->
+  (forall n ca, In (n, ca) l ->
+     get n kc = Some ca /\ n <> [] /\
+     (forall cb, get n kb = Some cb -> tree_eqb ca cb = false ->
+        diff fl ca cb = [mod_change ca cb] \/
+        (deep (diff fl ca cb) /\ apply_list ca (diff fl ca cb) = Some cb))) ->
+  apply_list (PB d kc) (commons fl kb l) = Some (PB d (upd kb l kc)).
+Proof.
+  induction l as [|[n ca] r IH]; intros kc Sl Sk Wb Hl; [reflexivity|].
+  inversion Sl as [|? ? Sr F]; subst.
+  destruct (Hl n ca (or_introl eq_refl)) as (G & Hn & Hd).
+  assert (Hr : forall kc', SS kc' -> (forall m, bytes_eqb n m = false -> get m kc' = get m kc) ->
+               apply_list (PB d kc') (commons fl kb r) = Some (PB d (upd kb r kc'))).
+  { intros kc' Sk' Hsame. apply IH; try assumption.
+    intros m cm Hm. destruct (Hl m cm (or_intror Hm)) as (Gm & Hm1 & Hm2).
+    split; [|split; assumption].
+    rewrite Hsame; [exact Gm|].
+    apply bytes_eqb_neq. intro E. subst. rewrite Forall_forall in F. specialize (F _ Hm).
+    unfold nlt in F. cbn [fst] in F. rewrite bytes_ltb_irrefl in F. discriminate. }
+  cbn [commons]. unfold upd. cbn [fold_left fst]. fold (upd kb r).
+  destruct (get n kb) as [cb|] eqn:Gb.
+  - rewrite apply_list_app.
+    assert (A : apply_list (PB d kc) (if tree_eqb ca cb then [] else map (prefix n) (diff fl ca cb)) =
+                Some (PB d (set n cb kc))).
+    { destruct (tree_eqb ca cb) eqn:E.
+      - apply tree_eqb_eq in E. subst. cbn [apply_list]. rewrite set_same by assumption. reflexivity.
+      - destruct (Hd cb eq_refl E) as [Hm|[Hdeep Happ]].
+        + rewrite Hm. cbn [map apply_list]. unfold apply_change, prefix, mod_change.
+          cbn [c_type c_path c_after rm_at]. rewrite G.
+          destruct (wf_is_pb cb (Wb n cb Gb)) as (cd & ck & ->).
+          cbn [insert_at]. destruct n as [|n0 n']; [contradiction|].
+          rewrite set_del. reflexivity.
+        + apply (apply_list_prefix _ ca); assumption. }
+    rewrite A. apply Hr; [apply SS_set; exact Sk|].
+    intros m E. rewrite get_set, E. reflexivity.
+  - apply Hr; [exact Sk| reflexivity].
+Qed.
+End Commons.
+
+(** ---------- the main theorem ---------- *)
+Lemma final_kids : forall ka kb, SS ka -> SS kb ->
+  fold_set (filter (fun nc => negb (is_some (get (fst nc) ka))) kb)
+    (fold_del (filter (fun nc => negb (is_some (get (fst nc) kb))) ka) (upd kb ka ka)) = kb.
+Proof.
+  intros ka kb Sa Sb. apply kids_ext; [|exact Sb|].
+  - apply SS_fold_set, SS_fold_del, SS_upd. exact Sa.
+  - intro m. rewrite get_fold_set by (apply SS_filter; exact Sb).
+    rewrite (get_filter_names (fun n => negb (is_some (get n ka)))).
+    rewrite get_fold_del.
+    rewrite (get_filter_names (fun n => negb (is_some (get n kb)))).
+    rewrite get_upd.
+    destruct (get m ka) as [ca|]; destruct (get m kb) as [cb|]; reflexivity.
+Qed.
+
+Lemma PB_apply_diff : forall fl d ka kb,
+  wf (PB d ka) -> wf (PB d kb) ->
+  (forall n ca cb, get n ka = Some ca -> get n kb = Some cb -> tree_eqb ca cb = false ->
+     diff fl ca cb = [mod_change ca cb] \/
+     (deep (diff fl ca cb) /\ apply_list ca (diff fl ca cb) = Some cb)) ->
+  apply_list (PB d ka) (commons fl kb ka ++ removes ka kb ++ adds ka kb) = Some (PB d kb).
+Proof.
+  intros fl d ka kb Wa Wb Hsub.
+  inversion Wa as [? ? Sa Ha]; subst. inversion Wb as [? ? Sb Hb]; subst.
+  rewrite apply_list_app.
+  rewrite (commons_apply fl kb d ka ka Sa Sa).
+  - rewrite apply_list_app. unfold removes.
+    rewrite removes_apply.
+    + unfold adds. rewrite adds_apply.
+      * rewrite final_kids by assumption. reflexivity.
+      * intros n c Hin. apply filter_In in Hin as [Hin _]. apply Hb. exact Hin.
+    + apply SS_filter. exact Sa.
+    + intros n c Hin. apply filter_In in Hin as [Hin Hf]. cbn [fst] in Hf.
+      rewrite get_upd. rewrite (in_get n c ka Sa Hin). cbn [is_some andb].
+      destruct (get n kb); [discriminate Hf| discriminate].
+  - intros n cb G. apply (wf_get d kb n cb Wb G).
+  - intros n ca Hin. split; [apply in_get; assumption|].
+    split; [apply (Ha n ca Hin)|].
+    intros cb Gb E. apply (Hsub n ca cb); try assumption. apply in_get; assumption.
+Qed.
+
+(** apply a (diff a b) = b, Diff comparing the Data of the two nodes (switch off) *)
+Lemma apply_diff_off : forall a b, wf a -> wf b -> tdata a = tdata b ->
+  apply_list a (diff false a b) = Some b.
+Proof.
+  induction a as [d | d ka IH] using tree_ind2; intros b Wa Wb Hd; [inversion Wa|].
+  destruct (wf_is_pb b Wb) as (db & kb & ->). cbn [tdata] in Hd. subst db.
+  destruct (tree_eqb (PB d ka) (PB d kb)) eqn:E.
+  - rewrite diff_PB, E. apply tree_eqb_eq in E. rewrite E. reflexivity.
+  - destruct (diff_cases false _ _ E) as [Hm|(da & ka' & db & kb' & Ea & Eb & Hdd & Hdiff & _)].
+    + (* a Mod at the root is impossible: same Data, not both link-less *)
+      exfalso. rewrite diff_PB, E, Z.eqb_refl in Hm. cbn [negb andb orb] in Hm.
+      rewrite orb_false_r in Hm.
+      destruct ka; destruct kb; cbn [is_nil andb] in Hm; try discriminate Hm.
+      rewrite tree_eqb_refl in E. discriminate E.
+    + injection Ea as <- <-. injection Eb as <- <-. rewrite Hdiff.
+      apply PB_apply_diff; try assumption.
+      intros n ca cb Ga Gb Ec.
+      destruct (diff_cases false ca cb Ec) as [Hm|(da & ka' & db & kb' & Ea & Eb & Hdd & _ & Hdeep)];
+        [left; exact Hm|].
+      right. split; [exact Hdeep|].
+      rewrite Forall_forall in IH. apply (IH (n, ca) (get_in _ _ _ Ga)).
+      * apply (wf_get d ka n ca Wa Ga).
+      * apply (wf_get d kb n cb Wb Gb).
+      * subst. cbn [tdata]. apply Hdd. reflexivity.
+Qed.
+
+(** Diff(a, a) is empty *)
+Lemma diff_refl : forall fl a, diff fl a a = [].
+Proof.
+  intros fl a. destruct a as [d k|d].
+  - rewrite diff_PB, tree_eqb_refl. reflexivity.
+  - cbn [diff]. rewrite tree_eqb_refl. reflexivity.
+Qed.
+
+(** a non-empty diff only for different trees, and conversely *)
+Lemma diff_nil_off : forall a b, wf a -> wf b -> tdata a = tdata b -> diff false a b = [] -> a = b.
+Proof.
+  intros a b Wa Wb Hd E. pose proof (apply_diff_off a b Wa Wb Hd) as A.
+  rewrite E in A. cbn [apply_list] in A. injection A as ->. reflexivity.
+Qed.
+
+(** the current code coincides with the repaired Diff on compatible pairs *)
+Lemma diff_compat : forall a b, compat a b = true -> diff true a b = diff false a b.
+Proof.
+  induction a as [d | d ka IH] using tree_ind2; intros b C.
+  - destruct b; reflexivity.
+  - destruct b as [db kb|db]; [|reflexivity].
+    rewrite compat_PB in C. rewrite !diff_PB.
+    destruct (tree_eqb (PB d ka) (PB db kb)); [reflexivity|].
+    destruct (is_nil ka && is_nil kb) eqn:N; [reflexivity|].
+    apply andb_true_iff in C as [C1 C2]. rewrite C1. cbn [negb andb orb].
+    f_equal. clear N C1.
+    induction ka as [|[n ca] r IHr]; [reflexivity|].
+    inversion IH as [|? ? Hc Hr]; subst. cbn [snd] in Hc.
+    cbn [compat_all commons] in *. destruct (get n kb) as [cb|].
+    + apply andb_true_iff in C2 as [C2 C3]. rewrite (Hc cb C2), (IHr Hr C3). reflexivity.
+    + apply (IHr Hr C2).
+Qed.
+
+Lemma apply_diff_current : forall a b, wf a -> wf b -> tdata a = tdata b -> compat a b = true ->
+  apply_list a (diff true a b) = Some b.
+Proof. intros a b Wa Wb Hd C. rewrite (diff_compat a b C). apply apply_diff_off; assumption. Qed.
+
+(** ---------- the defect of the current code ---------- *)
 Definition wit_a : tree := PB 0 [([120], PB 0 [([121], PB 1 [])])].
 Definition wit_b : tree := PB 0 [([120], PB 2 [])].
 
